@@ -66,6 +66,21 @@ J gen_stream(const std::string& prop, uint64_t run_seed, const std::string& tier
   (void)tier;
   Rng g(run_seed, "gen"), net(run_seed, "net"), kn(run_seed, "knobs");
   J plan = J::obj(); J knobs = J::obj();
+  if (g.chance(1, 150)) {
+    // single calls on buffers longer than 2^32 bytes (an mmap'ed file, say): one head at the start of a sparse 8 GiB region
+    std::vector<uint8_t> head; raw_token(g, head, false); if (head.size() > 9) head.resize(9);
+    if (g.chance(1, 2)) {   // a definite string whose head + payload lands on or next to a multiple of 2^32
+      bool text = g.chance(1, 2); uint64_t total = ((uint64_t)g.range(1, 1) << 32) + g.below(5) - 2; bool w8 = g.chance(1, 2);
+      uint64_t hl = w8 ? 9 : 5; uint64_t len = total - hl; if (!w8 && len > 0xffffffffull) { w8 = true; hl = 9; len = total - 9; }
+      head.clear(); head.push_back((uint8_t)((text ? 0x60 : 0x40) | (w8 ? 27 : 26))); for (int i = (w8 ? 7 : 3); i >= 0; i--) head.push_back((uint8_t)(len >> (8 * i)));
+    }
+    J h = J::obj(); h.set("hex", to_hex(head)); J sizes = J::arr();
+    for (int i = 0; i < 12; i++) { uint64_t base = (uint64_t)g.range(1, 1) << 32; sizes.push(g.chance(1, 3) ? base + g.below(12) : g.chance(1, 2) ? base + g.below(70000) : base - 1 - g.below(12)); }
+    sizes.push(((uint64_t)1 << 32) + 5); sizes.push(((uint64_t)1 << 32)); sizes.push(((uint64_t)1 << 33) + g.below(10));
+    h.set("sizes", sizes); plan.set("huge", h); plan.set("conns", J::arr());
+    knobs.set("be", (uint64_t)BE_DIRECT); plan.set("knobs", knobs);
+    return plan;
+  }
   knobs.set("buf", kn.below(3)); knobs.set("replay", kn.below(2)); knobs.set("empty_call", kn.chance(1, 4) ? 1 : 0);
   knobs.set("be", prop == "C13" ? kn.below(3) : (uint64_t)BE_DIRECT);
   knobs.set("fpmode", kn.below(4) == 0 ? 1 : 0);   // a quarter of the runs with FTZ/DAZ set in the thread's MXCSR
@@ -229,8 +244,42 @@ struct Exec {
 };
 }  // namespace
 
+static void exec_stream_huge(const J& h) {
+  uint8_t* R = huge_region(); if (!R) { stat_add("huge_region_unavailable"); return; }
+  std::vector<uint8_t> head = from_hex(h.gets("hex")); if (head.empty() || head.size() > 4096) return;
+  memcpy(R, head.data(), head.size());
+  g_rec_no_payload = true;
+  for (size_t i = 0; i < h.at("sizes").size() && !failed(); i++) {
+    uint64_t n = h.at("sizes").iu(i); if (n > HUGE_REGION_BYTES - 16) n = HUGE_REGION_BYTES - 16; if (n < head.size()) continue;
+    Recorder rec; rec.begin(R, (size_t)n);
+    uint64_t rb = sa_total_requests();
+    struct cbor_decoder_result res = cbor_stream_decode(R, (size_t)n, recorder_callbacks(), &rec);
+    Tok t = ref_tok(R, (size_t)n);
+    std::string where = fmt("one call on a %llu-byte buffer (2^32 %+lld) starting with [%s]", (unsigned long long)n, (long long)(n - ((uint64_t)1 << 32)), to_hex(head).c_str());
+    g_log.ev("decode-huge", n, (uint64_t)res.status, res.read);
+    if (sa_total_requests() != rb) fail("C08,C13", "stream-decode-allocates", where);
+    if (t.st == TS_RESERVED) { if (res.status != CBOR_DECODER_ERROR || res.read != 0 || !rec.evs.empty()) fail("C08,C09", "reserved-byte-not-ERROR", where + fmt(": status %d", (int)res.status)); }
+    else if (t.st == TS_OK) {
+      if (res.status != CBOR_DECODER_FINISHED) fail("C08,C09", "complete-item-not-FINISHED", where + fmt(": status %d (required %zu), the item occupies %llu bytes", (int)res.status, res.required, (unsigned long long)t.total_len));
+      else if ((u128)res.read != t.total_len) fail("C08,C09", "finished-read-wrong", where + fmt(": read=%zu, expected %llu", res.read, (unsigned long long)t.total_len));
+      else if (rec.evs.size() != 1) fail("C08,C09", "finished-callback-count", where + fmt(": %zu callbacks invoked, expected exactly 1", rec.evs.size()));
+      else { RecEv exp = expected_event(t, R); std::string why; if (!event_matches(rec.evs[0], exp, why)) fail("C08,C09", "finished-callback-wrong", where + ": " + why); }
+    } else {
+      u128 upper = t.head_complete ? t.total_len : (u128)t.head_len;
+      if (res.status != CBOR_DECODER_NEDATA) fail("C08,C09", "incomplete-item-not-NEDATA", where + fmt(": status %d", (int)res.status));
+      else if (!rec.evs.empty() || res.read != 0) fail("C08,C09", "nedata-with-callback", where);
+      else if (!(res.required > n) || (u128)res.required > upper) fail("C08,C09", "nedata-required-not-beyond-buffer", where + fmt(": required=%zu", res.required));
+    }
+    stat_add("huge_buffer_calls");
+  }
+  g_rec_no_payload = false;
+  memset(R, 0, head.size());
+  g_run.nontrivial = true;
+}
+
 void exec_stream(const J& plan) {
   if (!g_task_mode) sa_reset(knobs_alloc(plan));
+  if (plan.has("huge")) { if (!g_task_mode) exec_stream_huge(plan.at("huge")); return; }
   Exec X; const J& kn = plan.at("knobs");
   X.buf_policy = (int)kn.getu("buf"); X.replay = kn.getu("replay") != 0; X.empty_call = kn.getu("empty_call") != 0;
   const J& jc = plan.at("conns");
